@@ -208,6 +208,15 @@ func (o *Operator) HandleDeploy(ctx context.Context, req *workerpb.DeployOperato
 		return fmt.Errorf("creating filesystem: %w", err)
 	}
 
+	// A redeploy reopens the same directory: the previous instance must have
+	// finished its background table writes, which would otherwise land on file
+	// names the new instance uses too.
+	if o.db != nil {
+		if err := o.db.Close(); err != nil {
+			return fmt.Errorf("closing previous database: %w", err)
+		}
+	}
+
 	// Start the DKV database.
 	o.db = dkv.Open(dkv.DBOptions{
 		FileSystem:    fs,
